@@ -1,5 +1,6 @@
 import KyberModel.Lib.Ed25519
 import KyberModel.Lib.PrimeOrder
+import KyberModel.Lib.ModCast
 import KyberModel.Lib.WeierstrassCurves
 /-
 C01 — group operations obey abelian-group and scalar-action laws.
@@ -173,3 +174,76 @@ theorem bls12381 : Good BLS12381.curve ∧ Valid BLS12381.curve BLS12381.base
   ⟨bls_good, bls_base_valid, WFacts.bls_order, BLS12381.r_prime⟩
 
 end Kyber.Weierstrass.Instances
+
+/-!
+Section `Residue`: the Schnorr group of `group/p256/residue.go` (QR512). The model's operation is
+multiplication modulo `P`, inversion is Fermat, scalar multiplication is `powMod`. Stated for any prime
+`P` (primality of the 512-bit `P` of QR512 is the named hypothesis `H_qr512`: it is a safe prime whose
+`Q - 1` cannot be factored here, so no Pratt certificate).
+-/
+namespace Kyber.Residue.Laws
+open Kyber
+
+variable {P : Nat} [hP : Fact P.Prime]
+
+private theorem cast_inj {a b : Nat} (ha : a < P) (hb : b < P) (h : (a : ZMod P) = b) : a = b :=
+  eq_of_cast_eq ha hb h
+
+theorem mul_assoc' (a b c : Nat) : (a * b % P) * c % P = a * (b * c % P) % P := by
+  have hp : 0 < P := hP.out.pos
+  apply cast_inj (Nat.mod_lt _ hp) (Nat.mod_lt _ hp)
+  simp only [Nat.cast_mul, ZMod.natCast_mod]; ring
+
+omit hP in
+theorem mul_comm' (a b : Nat) : a * b % P = b * a % P := by rw [Nat.mul_comm]
+
+theorem mul_one' (a : Nat) (ha : a < P) : a * (1 % P) % P = a := by
+  have h1 : 1 % P = 1 := Nat.mod_eq_of_lt hP.out.one_lt
+  rw [h1, Nat.mul_one, Nat.mod_eq_of_lt ha]
+
+/-- Inverse (the group's `Neg`): `a · a⁻¹ = 1` for every residue `a ≢ 0`. -/
+theorem mul_inv' (h2 : 2 < P) (a : Nat) (ha : (a : ZMod P) ≠ 0) : a * invMod a P % P = 1 := by
+  have hp : 0 < P := hP.out.pos
+  apply cast_inj (Nat.mod_lt _ hp) hP.out.one_lt
+  simp only [Nat.cast_mul, ZMod.natCast_mod, cast_invMod h2, Nat.cast_one]
+  exact mul_inv_cancel₀ ha
+
+/-- Scalar multiplication is exponentiation: `(j + k)·a = j·a + k·a`, `k·(j·a) = (jk)·a`, `0·a = identity`. -/
+theorem pow_add' (a j k : Nat) : powMod a (j + k) P = powMod a j P * powMod a k P % P := by
+  have hp : 0 < P := hP.out.pos
+  apply cast_inj (powMod_lt _ _ _ hP.out.one_lt) (Nat.mod_lt _ hp)
+  simp only [Nat.cast_mul, ZMod.natCast_mod, powMod_spec, pow_add]
+
+theorem pow_mul' (a j k : Nat) : powMod (powMod a j P) k P = powMod a (j * k) P := by
+  apply cast_inj (powMod_lt _ _ _ hP.out.one_lt) (powMod_lt _ _ _ hP.out.one_lt)
+  simp only [powMod_spec, pow_mul]
+
+theorem pow_zero' (a : Nat) : powMod a 0 P = 1 := by
+  apply cast_inj (powMod_lt _ _ _ hP.out.one_lt) hP.out.one_lt
+  simp [powMod_spec]
+
+theorem pow_mul_distrib' (a b k : Nat) : powMod (a * b % P) k P = powMod a k P * powMod b k P % P := by
+  have hp : 0 < P := hP.out.pos
+  apply cast_inj (powMod_lt _ _ _ hP.out.one_lt) (Nat.mod_lt _ hp)
+  simp only [Nat.cast_mul, ZMod.natCast_mod, powMod_spec, mul_pow]
+
+/-- Elements of order dividing `Q` (what `Valid()` admits): scalars act modulo `Q`, and `(Q-1)·a = -a`. -/
+theorem pow_mod_order (Q a k : Nat) (hQ : powMod a Q P = 1) : powMod a (k % Q) P = powMod a k P := by
+  apply cast_inj (powMod_lt _ _ _ hP.out.one_lt) (powMod_lt _ _ _ hP.out.one_lt)
+  have h1 : (a : ZMod P) ^ Q = 1 := by rw [← powMod_spec, hQ]; simp
+  simp only [powMod_spec]
+  conv_rhs => rw [← Nat.div_add_mod k Q, pow_add, pow_mul, h1, one_pow, one_mul]
+
+theorem pow_pred_order (h2 : 2 < P) (Q a : Nat) (hQ0 : 0 < Q) (hQ : powMod a Q P = 1) :
+    powMod a (Q - 1) P = invMod a P := by
+  apply cast_inj (powMod_lt _ _ _ hP.out.one_lt) (invMod_lt hP.out.one_lt _)
+  have h1 : (a : ZMod P) ^ Q = 1 := by rw [← powMod_spec, hQ]; simp
+  rw [powMod_spec, cast_invMod h2]
+  have ha : (a : ZMod P) ≠ 0 := by
+    intro h0; rw [h0, zero_pow (by omega)] at h1; exact zero_ne_one h1
+  have : (a : ZMod P) ^ (Q - 1) * a = 1 := by
+    rw [← pow_succ]; have : Q - 1 + 1 = Q := by omega
+    rw [this, h1]
+  exact eq_inv_of_mul_eq_one_left this
+
+end Kyber.Residue.Laws
